@@ -289,6 +289,17 @@ fn case_text(workload: &str, k: u64, rng: &Rng, acc: &mut Acc, corpus: &[corpus:
     }
 }
 
+/// user + system CPU time of this process in clock ticks (100 per second on Linux), from /proc/self/stat
+fn cpu_ticks() -> u64 {
+    let s = std::fs::read_to_string("/proc/self/stat").unwrap_or_default();
+    // fields after the ")" that closes the command name: state is field 3; utime and stime are fields 14 and 15
+    let rest = s.rsplit(')').next().unwrap_or("");
+    let f: Vec<&str> = rest.split_whitespace().collect();
+    let u: u64 = f.get(11).and_then(|x| x.parse().ok()).unwrap_or(0);
+    let st: u64 = f.get(12).and_then(|x| x.parse().ok()).unwrap_or(0);
+    u + st
+}
+
 /// worker: `vmon worker c04 <seed> <workload> <lo> <hi>`; prints one line per case
 pub fn worker(args: &[String]) -> i32 {
     let seed: u64 = args[0].parse().unwrap();
@@ -298,7 +309,24 @@ pub fn worker(args: &[String]) -> i32 {
     let corpus = corpus::load();
     let cat = catalogue();
     let stdout = std::io::stdout();
+    // CPU budget per case: a case normally needs milliseconds of CPU; 60 CPU-seconds (process time, not wall clock)
+    // without a result is reported as a missing result for that case
+    let case_start_ticks = std::sync::Arc::new(std::sync::atomic::AtomicU64::new(cpu_ticks()));
+    let cur_case = std::sync::Arc::new(std::sync::atomic::AtomicU64::new(lo));
+    {
+        let (cs, cc) = (case_start_ticks.clone(), cur_case.clone());
+        std::thread::spawn(move || loop {
+            std::thread::sleep(std::time::Duration::from_millis(500));
+            let used = cpu_ticks().saturating_sub(cs.load(std::sync::atomic::Ordering::Relaxed));
+            if used > 60 * 100 {
+                println!("X {}", cc.load(std::sync::atomic::Ordering::Relaxed));
+                std::process::exit(97);
+            }
+        });
+    }
     for k in lo..hi {
+        case_start_ticks.store(cpu_ticks(), std::sync::atomic::Ordering::Relaxed);
+        cur_case.store(k, std::sync::atomic::Ordering::Relaxed);
         {
             let mut o = stdout.lock();
             let _ = writeln!(o, "S {}", k);
@@ -341,6 +369,7 @@ fn run_shard(exe: &str, build: &str, seed: u64, workload: &str, lo: u64, hi: u64
         let out = child.stdout.take().unwrap();
         let mut started: Option<u64> = None;
         let mut finished: Option<u64> = None;
+        let mut cpu_killed: Option<u64> = None;
         // silence watchdog: a case normally takes milliseconds; kill the worker after 90 s without any output line
         let last_line = std::sync::Arc::new(std::sync::atomic::AtomicU64::new(0));
         let done = std::sync::Arc::new(std::sync::atomic::AtomicBool::new(false));
@@ -374,7 +403,17 @@ fn run_shard(exe: &str, build: &str, seed: u64, workload: &str, lo: u64, hi: u64
                 Ok(l) => l,
                 Err(_) => break,
             };
-            if let Some(r) = line.strip_prefix("S ") {
+            if let Some(r) = line.strip_prefix("X ") {
+                // the worker gave up on this case after 60 CPU-seconds
+                if let Ok(kx) = r.trim().parse::<u64>() {
+                    acc.cur_k = kx;
+                    acc.violation(
+                        format!("no-result-within-cpu-budget:{}", build),
+                        json!({"build": build, "workload": workload, "k": kx, "note": "all 30 entry points normally return within milliseconds of CPU time on this input; after 60 seconds of CPU time (process time, not wall clock) no result had been returned: bounded-progress reading of 'terminates normally'"}),
+                    );
+                    cpu_killed = Some(kx);
+                }
+            } else if let Some(r) = line.strip_prefix("S ") {
                 started = r.trim().parse().ok();
             } else if let Some(r) = line.strip_prefix("R ") {
                 if let Ok(j) = serde_json::from_str::<Value>(r) {
@@ -418,6 +457,10 @@ fn run_shard(exe: &str, build: &str, seed: u64, workload: &str, lo: u64, hi: u64
         let ok = status.as_ref().map(|s| s.success()).unwrap_or(false);
         if ok {
             return;
+        }
+        if let Some(kx) = cpu_killed {
+            cur = kx + 1;
+            continue;
         }
         if hung.load(std::sync::atomic::Ordering::Relaxed) {
             // wall clock is not a verdict: report the case, continue after it
